@@ -229,8 +229,9 @@ class ProjectKit(AnalysisKit):
     def diag_obs(self, d):
         ll = self.ll
         m = deref(d.fields[ll.fidx('Diagnostic', 'message')])
-        if not isinstance(m, StrV): raise Unsupported(f'diagnostic message not modelled: {m!r} code={d.fields[ll.fidx("Diagnostic", "code")].variant} at {obs_show(self.pos_tuple(d.fields[ll.fidx("Diagnostic", "pos")]))}')
-        msg = tuple(m.b)
+        if isinstance(m, StrV): msg = tuple(m.b)
+        elif type(m).__name__ == 'Opaque': msg = (('message with a symbolic number', m.why),)      # e.g. "Index {idx} out of range" with a symbolic digit
+        else: raise Unsupported(f'diagnostic message not modelled: {m!r} code={d.fields[ll.fidx("Diagnostic", "code")].variant} at {obs_show(self.pos_tuple(d.fields[ll.fidx("Diagnostic", "pos")]))}')
         rel = tuple((self.pos_tuple(r.fields[0]), tuple(deref(r.fields[1]).b)) for r in seq_items(d.fields[ll.fidx('Diagnostic', 'related')]))
         return (self.pos_tuple(d.fields[ll.fidx('Diagnostic', 'pos')]), d.fields[ll.fidx('Diagnostic', 'code')].variant, msg, rel)
 
